@@ -22,9 +22,9 @@ def h_append(ex, st, node, args):
         ("C12.frame.vars", "forall(v, 0, V, _p.dom_indices_lst[v] == _me.dom_indices_lst[v] and _p.dom_offsets_lst[v] == _me.dom_offsets_lst[v])"),
         ("C12.unshared", "True"),
     ):
-        ex.oblige(st, "post", label, ex.eval_spec(clause, s, {}), tags={"C12"}, line=node.lineno)
+        ex.oblige(st, "post", label, ex.eval_spec(clause, s, {}), tags={"C12", "C13"}, line=node.lineno)
     if prob["shr_domains_lst"].obj.id == me["shr_domains_lst"].obj.id:
-        ex.oblige(st, "post", "C12.unshared", False, tags={"C12"}, line=node.lineno)
+        ex.oblige(st, "post", "C12.unshared", False, tags={"C12", "C13"}, line=node.lineno)
     parts = st.env["parts"]
     n = st.env["nparts"]
     row = ex.index(st, prob["shr_domains_lst"], [idx])
@@ -43,7 +43,7 @@ def h_append(ex, st, node, args):
 A, B = "self.shr_domains_lst[self.dom_indices_lst[var_idx], 0]", "self.shr_domains_lst[self.dom_indices_lst[var_idx], 1]"
 contract("nucs/problems/problem.py::Problem.split",
     types={"self": {"shr_domains_lst": "i64[D,2]", "dom_indices_lst": "i64[V]", "dom_offsets_lst": "i64[V]"}, "split_nb": "int", "var_idx": "int"},
-    ghost={"parts": "i64[KMAX,2]"}, result="list[R]", props=["C12", "C16"],
+    ghost={"parts": "i64[KMAX,2]"}, result="list[R]", props=["C12", "C16", "C13"],
     requires=["0 <= var_idx and var_idx < V", "forall(v, 0, V, 0 <= self.dom_indices_lst[v] and self.dom_indices_lst[v] < D)",
               f"{A} <= {B}", "split_nb >= 1", "KMAX >= split_nb"],
     env={"copy.deepcopy": h_deepcopy, "problems.append": h_append}, ghost_init={"nparts": 0},
@@ -64,4 +64,4 @@ contract("nucs/problems/problem.py::Problem.split",
         ("C12.nonempty", "forall(j, 0, nparts, parts[j, 0] <= parts[j, 1])"),
         ("C12.self", "same(self.shr_domains_lst) and same(self.dom_indices_lst) and same(self.dom_offsets_lst)"),
     ],
-    tags={"C12": ["C12"]}, arities=[])
+    tags={"C12": ["C12", "C13"]}, arities=[])  # C13: the split is taken on the shared domain through the variable's offset; a parallel run of a model with views depends on it
